@@ -111,7 +111,7 @@ def seqOf (s : String) : Option (List SeqItem) :=
     if body.isEmpty then some [] else
     (splitOnChar ',' body).foldr (fun t acc => match acc with
       | none => none
-      | some l => if t == ['E'] then some (SeqItem.err :: l) else (intOf t).map (fun v => SeqItem.val v :: l)) (some [])
+      | some l => if t == ['E'] then some (SeqItem.err :: l) else if t == ['N'] then some (SeqItem.none :: l) else (intOf t).map (fun v => SeqItem.val v :: l)) (some [])
 
 def allInts (ws : List String) : Option (List Int) :=
   ws.foldr (fun t acc => match acc, intOfS t with
@@ -176,6 +176,8 @@ def parseOp (ws : List String) : Option Op :=
   | ["serialize", r] => some (.serialize r)
   | ["clone_from", r, r2] => some (.clone_from r r2)
   | ["from_str", n] => (natOfS n).map .from_str
+  | ["serialize_u8", n] => (natOfS n).map .from_str   -- same vector, same allocator traffic; serializing adds no event
+  | ["extend_ref", n, it] => do some (.extend_ref (← natOfS n) (← iterOf it))
   | ["deserialize", r, h, sq] => do some (.deserialize r (← hintOf h) (← seqOf sq))
   | ["deserialize_in_place", r, h, sq] => do some (.deserialize_in_place r (← hintOf h) (← seqOf sq))
   | _ => none
@@ -280,7 +282,7 @@ def idBound (w : World) : Op → Nat
     (match w.get r with | some (.vec v) => (if v.isDefault then 0 else v.len) | _ => 0)
   | .extend_from_within r _ _ | .clone r _ => (match w.get r with | some (.vec v) => (if v.isDefault then 0 else v.len) | _ => 0)
   | .clone_iter it _ => (match w.get it with | some (.intoIter v _) => (if v.isDefault then 0 else v.len) | _ => 0)
-  | .deserialize _ _ sc | .deserialize_in_place _ _ sc => (sc.filter (fun i => match i with | .val _ => true | .err => false)).length
+  | .deserialize _ _ sc | .deserialize_in_place _ _ sc => (sc.filter (fun i => match i with | .val _ => true | _ => false)).length
   | _ => 0
 
 def roomFor (cs : Case) (op : Op) : Bool :=
